@@ -645,21 +645,32 @@ func Structures() []Entry {
 				Attributes: map[string]*schema.AttributeSchema{"v": {Constraint: schema.AnyExpression{OfType: cty.String}, IsOptional: true}},
 				Blocks:     map[string]*schema.BlockSchema{"rule": {Body: &schema.BodySchema{Attributes: map[string]*schema.AttributeSchema{"w": strAttr(nil)}}}}}}
 		}
+		// one block schema value shared by two parents (schemas share sub-schemas freely)
+		shared := setting()
 		return &schema.BodySchema{Blocks: map[string]*schema.BlockSchema{
 			"resource": {Labels: []*schema.LabelSchema{{Name: "type", IsDepKey: true}, {Name: "name"}},
-				Body: &schema.BodySchema{Extensions: ext(true, false, true, false), Attributes: map[string]*schema.AttributeSchema{"st": strAttr(nil)}},
+				Body: &schema.BodySchema{Extensions: ext(true, false, true, false), Attributes: map[string]*schema.AttributeSchema{"st": strAttr(nil)},
+					// a static nested block with extensions of its own and a nested block
+					Blocks: map[string]*schema.BlockSchema{"conn": {Body: &schema.BodySchema{Extensions: ext(false, false, false, true),
+						Attributes: map[string]*schema.AttributeSchema{"host": {Constraint: schema.AnyExpression{OfType: cty.String}, IsOptional: true}},
+						Blocks:     map[string]*schema.BlockSchema{"hop": {Body: &schema.BodySchema{Attributes: map[string]*schema.AttributeSchema{"h": strAttr(nil)}}}}}}}},
 				DependentBody: map[schema.SchemaKey]*schema.BodySchema{
-					depKey([]schema.LabelDependent{lbl(0, "aws")}, nil): {Blocks: map[string]*schema.BlockSchema{"setting": setting(), "plain": {Body: &schema.BodySchema{}}}},
+					depKey([]schema.LabelDependent{lbl(0, "aws")}, nil): {Blocks: map[string]*schema.BlockSchema{"setting": shared, "plain": {Body: &schema.BodySchema{}}}},
 				}},
 			"data": {Labels: []*schema.LabelSchema{{Name: "type", IsDepKey: true}},
 				Body: &schema.BodySchema{},
 				DependentBody: map[schema.SchemaKey]*schema.BodySchema{
-					depKey([]schema.LabelDependent{lbl(0, "aws")}, nil): {Blocks: map[string]*schema.BlockSchema{"setting": setting()}},
+					depKey([]schema.LabelDependent{lbl(0, "aws")}, nil): {Blocks: map[string]*schema.BlockSchema{"setting": shared}},
 				}},
 		}}
 	},
 		"resource \"aws\" \"a\" {\n  setting {\n    v = self.v\n    rule {\n    }\n  }\n  dynamic \"setting\" {\n    for_each = []\n    content {\n    }\n  }\n}\ndata \"aws\" {\n  setting {\n    \n  }\n}\n",
 		"data \"aws\" {\n  setting {\n    rule {\n    }\n    \n  }\n}\nresource \"aws\" \"b\" {\n  plain {\n  }\n}\n",
+		// an unresolved sibling before a resolved one (and the other way round); dynamic blocks inside the static nested block
+		"resource \"zz\" \"u\" {\n  conn {\n  }\n}\nresource \"aws\" \"a\" {\n  conn {\n    dynamic \"hop\" {\n      for_each = []\n      content {\n      }\n    }\n  }\n}\n",
+		"resource \"aws\" \"a\" {\n  conn {\n    dynamic \"hop\" {\n      for_each = []\n      content {\n      }\n    }\n  }\n}\nresource \"zz\" \"u\" {\n  conn {\n    dynamic \"hop\" {\n      for_each = []\n      content {\n      }\n    }\n  }\n}\n",
+		// the shared nested block under the parent that enables dynamic blocks, then under the one that does not
+		"resource \"aws\" \"a\" {\n  setting {\n  }\n}\ndata \"aws\" {\n  setting {\n    dynamic \"rule\" {\n      for_each = []\n      content {\n      }\n    }\n  }\n}\n",
 	)
 
 	// --- required-field prefilling: snippets with many tab stops --------------------------------
